@@ -265,6 +265,7 @@ func (m *locker) try(ctx context.Context, cancel context.CancelFunc, name string
 	deadline := now.Add(duration)
 	canceltm := time.AfterFunc(duration, cancel)
 	released := int32(0)
+	leaving := int32(0)
 	acquired := int32(0)
 	failures := int32(0)
 
@@ -288,6 +289,9 @@ func (m *locker) try(ctx context.Context, cancel context.CancelFunc, name string
 					}
 				}
 			}
+		}
+		if atomic.AddInt32(&leaving, 1) >= m.majority {
+			cancel() // the context must be done before the key that costs the majority is released
 		}
 		if !errors.Is(err, ErrNotLocked) {
 			_ = m.script(context.Background(), delkey, key, val, deadline)
